@@ -54,7 +54,9 @@ func TestMain(m *testing.M) {
 	core.DeclareFaults("flip-input", "flip-input-spare", "flip-output", "flip-proto-in", "flip-proto-out", "flip-whole")
 	core.DeclareProbes("zero-len-msg", "nil-aux", "zero-spare", "spare-fits-output", "zero-cap-output", "nested-object", "ctor-rebuilt", "params-rebuilt",
 		"parse-rebuilt", "legacy-adapter", "second-key", "prim-built-after-flip", "handle-mem-read", "handle-binary", "handle-json",
-		"handle-encrypted", "handle-public", "handle-nosecrets", "derived-handle", "old-output-reaccepted", "subtle-built")
+		"handle-encrypted", "handle-public", "handle-nosecrets", "derived-handle", "old-output-reaccepted", "subtle-built",
+		"odd-encoding", "odd-encoding-accepted", "odd-encoding-refused", "stream-aad-flipped-before-first-write", "stream-chunk-flipped-after-write",
+		"stream-aad-flipped-before-first-read", "stream-readbuf-flipped-after-read", "read-short-buffer-big-spare", "read-zero-len-buffer", "write-zero-len-chunk")
 	if core.Thorough() {
 		core.DeclareProbes("pooled-key")
 	}
@@ -144,13 +146,14 @@ const (
 	sPrims
 	sOp
 	sSecondKey
+	sStream
 	sCount
 )
 
-var stepNames = [sCount]string{"sweep", "ctor", "parse", "h-mgr", "h-mem", "h-bin", "h-json", "h-enc", "h-pub", "prims", "op", "key2"}
+var stepNames = [sCount]string{"sweep", "ctor", "parse", "h-mgr", "h-mem", "h-bin", "h-json", "h-enc", "h-pub", "prims", "op", "key2", "stream"}
 
 // step groups for the run signature
-var stepGroup = [sCount]byte{'a', 'c', 'p', 'h', 'i', 'i', 'i', 'i', 'h', 'o', 'o', 'k'}
+var stepGroup = [sCount]byte{'a', 'c', 'p', 'h', 'i', 'i', 'i', 'i', 'h', 'o', 'o', 'k', 's'}
 
 type stepSpec struct{ kind, arg int }
 
@@ -171,10 +174,14 @@ type plan struct {
 	flipXor   []byte
 	flipWhole []bool
 	flipSpare []bool
+	// shapes of multi-step operations and of constructor inputs
+	readLens []int // lengths of Write chunks and of caller-supplied Read buffers (cycled)
+	perturb  []int // per constructor byte input: 0..10 as read from the key, 11.. an unusual encoding (cycled)
 }
 
 var lenChoices = []int{16, 0, 1, 15, 17, 33, 64, 100, 257, 1000, 4200}
 var spareChoices = []int{0, 1, 8, 40, 300, 6000}
+var readLenChoices = []int{64, 0, 1, 7, 16, 48, 100, 300, 1024, 4096, 5000}
 
 func drawPlan(t *rapid.T) *plan {
 	cat, stubs, subs := entries()
@@ -204,6 +211,8 @@ func drawPlan(t *rapid.T) *plan {
 	p.flipXor = rapid.SliceOfN(rapid.ByteRange(1, 255), 1, 4).Draw(t, "flipXor")
 	p.flipWhole = rapid.SliceOfN(rapid.Bool(), 1, 3).Draw(t, "flipWhole")
 	p.flipSpare = rapid.SliceOfN(rapid.Bool(), 1, 3).Draw(t, "flipSpare")
+	p.readLens = rapid.SliceOfN(rapid.SampledFrom(readLenChoices), 1, 4).Draw(t, "readLens")
+	p.perturb = rapid.SliceOfN(rapid.IntRange(0, 15), 1, 4).Draw(t, "perturb")
 	return p
 }
 
@@ -238,6 +247,8 @@ type prim struct {
 	verify   func(out, msg, aux []byte) error          // accepting side of the other classes
 	derive   func(salt []byte) (*keyset.Handle, error) // key derivation only
 	fitMsg   func(n int) int                           // message lengths the primitive takes (nil: any)
+	stream   streamer                                  // streaming primitives: the multi-step interface
+	lenient  bool                                      // built from an unusual encoding: refusals are observations, not harness trouble
 	samples  []sample
 }
 
@@ -251,6 +262,8 @@ type target struct {
 	fired   bool
 	seq     int
 	undo    func()
+	// dataOnly: a flip made between two steps of one operation always hits the data the caller passed
+	dataOnly bool
 }
 
 type rec struct {
@@ -304,6 +317,11 @@ type world struct {
 	shapeCtr  int
 	master    tink.AEAD
 	noHandles bool // the entry's keys cannot be serialized
+	pertCtr   int  // constructor byte inputs seen (indexes plan.perturb)
+	readCtr   int  // indexes plan.readLens
+	chainOdd  bool // an input of the constructor chain in progress was given an unusual encoding
+	tolerate  bool // an operation of a lenient primitive is in progress
+	oddKeys   bool // a key built from an unusual encoding joined the run's keys: refusals further down are observations
 
 	// statistics
 	flips     map[string]int
@@ -312,8 +330,8 @@ type world struct {
 	// set by the in-call watcher (instr build only): a caller buffer was seen modified while a call was in progress
 	transient       string
 	transientRegion string
-	aborted   bool
-	accSeen   map[string]bool
+	aborted         bool
+	accSeen         map[string]bool
 }
 
 func (w *world) catch(op string) {
@@ -324,6 +342,15 @@ func (w *world) catch(op string) {
 		s := fmt.Sprintf("%T", p)
 		if s == "rapid.stopTest" || s == "rapid.invalidData" {
 			panic(p)
+		}
+		if w.tolerate {
+			// An operation of a primitive whose constructor accepted an unusual (possibly illegal) encoding. That the
+			// constructor did not refuse it, and that the operation panics instead of failing, is not what C19 is
+			// about: recorded (both worlds must agree), listed in the evidence, not raised.
+			w.obsS(op, "panic", "panic")
+			w.r.Count("panic-after-odd-encoding", 1)
+			w.setAdd("panic-after-odd-encoding", fmt.Sprintf("%s: %v", op, p))
+			return
 		}
 		if w.faulted {
 			// world A went through the same call without a panic
@@ -625,7 +652,7 @@ func (w *world) apply(tg *target) {
 	whole := pl.flipWhole[tg.seq%len(pl.flipWhole)]
 	switch tg.kind {
 	case "input":
-		spare := pl.flipSpare[tg.seq%len(pl.flipSpare)] && tg.buf.spare > 0
+		spare := pl.flipSpare[tg.seq%len(pl.flipSpare)] && tg.buf.spare > 0 && !tg.dataOnly
 		region := tg.buf.Data()
 		if spare {
 			region = tg.buf.SpareRegion()
@@ -1254,6 +1281,18 @@ func (w *world) handleMgr(arg int) int {
 		}
 		h, err = m.Handle()
 	}()
+	if (err != nil || h == nil) && w.oddKeys && ki != w.keys[0] {
+		// a key rebuilt from an unusual encoding that the manager will not take: the run's first key always works
+		w.obsErr(op, "odd key", err)
+		func() {
+			defer w.catch(op)
+			m := keyset.NewManager()
+			if _, err = m.AddKeyWithOpts(w.objs[w.keys[0]].v.(key.Key), internalapi.Token{}, keyset.AsPrimary()); err != nil {
+				return
+			}
+			h, err = m.Handle()
+		}()
+	}
 	if err != nil || h == nil {
 		w.fatalf("manager refuses key %s of %s: %v", w.objs[ki].label, w.pl.ent.name, err)
 	}
@@ -1481,7 +1520,7 @@ func (w *world) stepPrims(arg int) *prim {
 	e := w.pl.ent
 	op := e.base() + ".New"
 	names := opNames[e.class]
-	p := &prim{ent: e, opP: e.base() + "." + names[0], opA: e.base() + "." + names[1], hidx: hi}
+	p := &prim{ent: e, opP: e.base() + "." + names[0], opA: e.base() + "." + names[1], hidx: hi, lenient: w.oddKeys}
 	var err error
 	func() {
 		defer w.catch(op)
@@ -1492,6 +1531,9 @@ func (w *world) stepPrims(arg int) *prim {
 			return
 		}
 		p.produce, p.det = prod.Produce, prod.Deterministic
+		if st, ok := prod.Raw.(streamer); ok && e.class == classes.StreamingAEAD {
+			p.stream = st
+		}
 		if e.class == classes.KeyDerivation {
 			if d, ok := prod.Raw.(interface {
 				DeriveKeyset(salt []byte) (*keyset.Handle, error)
@@ -1517,7 +1559,7 @@ func (w *world) stepPrims(arg int) *prim {
 	}()
 	w.obsErr(op, "build", err)
 	if err != nil {
-		if !w.faulted {
+		if !w.faulted && !w.oddKeys {
 			w.fatalf("cannot build the %s primitives of %s from a %s handle: %v", e.class, e.name, w.handles[hi].origin, err)
 		}
 		return nil
@@ -1534,6 +1576,8 @@ func (w *world) stepPrims(arg int) *prim {
 
 // useOnce: one produce and one accept with caller buffers of the drawn shapes.
 func (w *world) useOnce(p *prim, msg, aux []byte, auxNil bool, keepSample, flippable bool) {
+	w.tolerate = p.lenient
+	defer func() { w.tolerate = false }()
 	opP := p.opP
 	spM, spA := w.nextSpare(), w.nextSpare()
 	mb := w.in(opP, "message", msg, spM)
@@ -1558,7 +1602,7 @@ func (w *world) useOnce(p *prim, msg, aux []byte, auxNil bool, keepSample, flipp
 	w.obsErr(opP, "err", err)
 	w.setAdd("ops", opP)
 	if err != nil {
-		if !w.faulted {
+		if !w.faulted && !p.lenient {
 			w.fatalf("%s of %s failed in the pristine world: %v", opP, p.ent.name, err)
 		}
 		return
@@ -1639,6 +1683,8 @@ func (w *world) obsOutput(p *prim, op string, out, msg, aux []byte, auxNil bool)
 }
 
 func (w *world) acceptOnce(p *prim, out, msg, aux []byte, auxNil bool, flippable bool) {
+	w.tolerate = p.lenient
+	defer func() { w.tolerate = false }()
 	opA := p.opA
 	cb := w.in(opA, "ciphertext/tag/signature", out, w.nextSpare())
 	mb := w.in(opA, "message", msg, w.nextSpare())
@@ -1662,7 +1708,7 @@ func (w *world) acceptOnce(p *prim, out, msg, aux []byte, auxNil bool, flippable
 	w.obsErr(opA, "err", err)
 	w.setAdd("ops", opA)
 	if err != nil {
-		if !w.faulted {
+		if !w.faulted && !p.lenient {
 			w.fatalf("%s of %s rejects what %s produced in the pristine world: %v", opA, p.ent.name, p.opP, err)
 		}
 		return
@@ -1671,7 +1717,7 @@ func (w *world) acceptOnce(p *prim, out, msg, aux []byte, auxNil bool, flippable
 		call := w.newCall()
 		w.out(opA, call, pt, flippable)
 		w.obs(opA, "plaintext", pt)
-		if !w.faulted && !bytes.Equal(pt, msg) {
+		if !w.faulted && !p.lenient && !bytes.Equal(pt, msg) {
 			w.fatalf("%s of %s returns another plaintext in the pristine world", opA, p.ent.name)
 		}
 	}
@@ -1734,6 +1780,8 @@ func (w *world) step(s stepSpec) {
 	if w.pl.ent.sub != nil {
 		// subtle primitives have no key objects and no handles: every step is about primitives
 		switch s.kind {
+		case sStream:
+			w.stepStream(s.arg)
 		case sOp, sSweep, sCtor, sParse:
 			w.stepOp(s.arg)
 		case sPrims, sSecondKey:
@@ -1789,6 +1837,8 @@ func (w *world) step(s stepSpec) {
 		}
 	case sOp:
 		w.stepOp(s.arg)
+	case sStream:
+		w.stepStream(s.arg)
 	case sSecondKey:
 		if len(w.keys) < 6 && w.pl.ent.cat != nil {
 			w.newKey(false)
@@ -1916,4 +1966,3 @@ func run(t *rapid.T) {
 	sig := fmt.Sprintf("%s/%s/%s|steps=%s|flips=%s|%s", pl.ent.class, pl.ent.keyType, pl.ent.variant, gs, strings.Join(fl, ","), outcome)
 	r.End(sig, nflips > 0)
 }
-
